@@ -31,6 +31,17 @@ impl<W: Write> Emitter<W> {
         Emitter { out, next_id: 1, counts: Default::default() }
     }
     pub fn emit(&mut self, mut ev: Value) -> u64 {
+        // the Json module of TLC has no null: an absent field of a child-process reply
+        // (a call that hung or aborted) is written as the string "null"
+        fn no_nulls(v: &mut Value) {
+            match v {
+                Value::Null => *v = json!("null"),
+                Value::Array(a) => a.iter_mut().for_each(no_nulls),
+                Value::Object(o) => o.values_mut().for_each(no_nulls),
+                _ => {}
+            }
+        }
+        no_nulls(&mut ev);
         let id = self.next_id;
         self.next_id += 1;
         ev["id"] = json!(id);
@@ -209,13 +220,15 @@ pub fn random_op(rng: &mut ChaCha8Rng, k: i32, weights: &[i64], tag: i32) -> Op 
     }
 }
 
-/// Random linear histories; `wmode` 0: mixed NaN/real, 1: all real, 2: all NaN.
+/// Random linear histories; `wmode` 0: mixed NaN/real, 1: all real, 2: all NaN, 3: all real incl. 0 and a negative weight.
 pub fn random_histories<W: Write>(cx: &mut Ctx<W>, rng: &mut ChaCha8Rng, n: usize, k: i32, maxlen: usize, nqueries: usize) {
     for _ in 0..n {
-        let wmode = rng.gen_range(0..3);
+        let wmode = rng.gen_range(0..4);
         let weights: Vec<i64> = match wmode {
             0 => vec![NAN_W, 1, 2, 3],
             1 => vec![1, 2, 3, 5],
+            // real weights that are easy to mistreat: zero and a negative one
+            3 => vec![0, -2, 1, 4],
             _ => vec![NAN_W],
         };
         let len = rng.gen_range(3..=maxlen);
@@ -238,7 +251,7 @@ pub fn random_histories<W: Write>(cx: &mut Ctx<W>, rng: &mut ChaCha8Rng, n: usiz
         let qpoints: Vec<usize> = (0..nqueries).map(|_| rng.gen_range(1..=len)).collect();
         for i in 0..len {
             let mut op = random_op(rng, k, &weights, (i % 7) as i32 + 1);
-            if wmode == 1 {
+            if wmode == 1 || wmode == 3 {
                 // keep the history uniformly weighted: tuples are unweighted edges
                 op = match op {
                     Op::AddEdgeTuple(u, v) => Op::AddEdge((u, v, weights[i % weights.len()], 0)),
